@@ -798,12 +798,17 @@ def c01(tier):
                                          df17(5, 0x4d2026, me_airpos(11, 0, enc_alt12(9000), 0, *cpr_encode(-33.9, -151.2, 0))),
                                          df17(5, 0x4d2024, me_ident(4, 1, callsign_codes('NOFIX'))))]
     mixed = mixed + posmix
+    # every DF value against every accepted digit count (what the counters, the filter and the per-format dispatch see)
+    dfclaims = L[15:15 + 128]
     for d in disp:
         # the display runs inside the reader thread: refresh after every frame when an ordering is given
         g = [{'c': 'reset', 'opts': d + (['--update=-1'] if '-o' in d and not any(x.startswith('-u') for x in d) else []), 'slot': 0}]
         g.append(runn(mixed + [L[15]] + [list(sentinel().encode())]))
         for l in rng.sample(L, 12):
             g.append(runn([l, list(sentinel().encode())]))
+        if '-c' in d or '-f' in d or '-M' in d:
+            for l in dfclaims:
+                g.append(runn([l, list(sentinel().encode())]))
         groups.append(g)
     # stateful hostile sequences: position pairs (airborne and surface) at extreme latitudes, both orders, zero fields
     aa = 0x4d3000
@@ -859,6 +864,8 @@ def c01(tier):
         for k, opts in enumerate(base + disp[:8] + disp[8:] if tier == 'thorough' else base[:4] + disp):
             part = sub[(k * per) % max(1, len(sub) - per):][:per] if len(sub) > per else sub
             lines = list(posmix)
+            if '-c' in opts or '-f' in opts or '-M' in opts:
+                part = dfclaims + part
             for l in part:
                 if len(l) > 5000:
                     continue
